@@ -120,4 +120,5 @@ def run(tier, replay=None):
             for k in ("old", "new", "ops", "hdr"):
                 f.pop(k, None)
             c.add_failure(f)
+    (c.work / "failures.json").write_text(json.dumps(c.failures, indent=0))
     return c.finish()
